@@ -391,6 +391,66 @@ Proof.
   pose proof (txts_wire_len txts). pose proof (sum_len_nonneg txts). unfold n6_len in *. lia.
 Qed.
 
+(* ---------------------------------------------------------------- OPT options and SVCB parameters *)
+Lemma opts_loop_wire : forall os pre fuel acc,
+  Forall (fun o => 0 <= op_code o < 65536 /\ n6_len (op_data o) <= 65535 /\ bytes_ok (op_data o)) os -> (length os < fuel)%nat ->
+  opts_loop (pre ++ opts_wire os) fuel (n6_len pre) acc = Ok (acc ++ os).
+Proof.
+  induction os as [|o r IH]; intros pre fuel acc Hok Hf; (destruct fuel as [|f]; [cbn in Hf; lia|]); cbn [opts_loop].
+  - unfold opts_wire. cbn [map concat]. rewrite !app_nil_r. replace (n6_len pre <? n6_len pre) with false by lia. reflexivity.
+  - inversion Hok as [|? ? (Hc & Hl & Hb) Hr]; subst. unfold opts_wire in *. cbn [map concat].
+    set (body := concat (map (fun o0 => be_bytes 2 (op_code o0) ++ be_bytes 2 (u16 (n6_len (op_data o0))) ++ op_data o0) r)) in *.
+    pose proof (n6_len_nonneg (op_data o)). pose proof (n6_len_nonneg body). pose proof (n6_len_nonneg pre).
+    assert (Hu : u16 (n6_len (op_data o)) = n6_len (op_data o)) by (unfold u16; lia). rewrite Hu.
+    replace (n6_len pre <? n6_len (pre ++ (be_bytes 2 (op_code o) ++ be_bytes 2 (n6_len (op_data o)) ++ op_data o) ++ body)) with true by (lens; lia).
+    replace (n6_len (pre ++ (be_bytes 2 (op_code o) ++ be_bytes 2 (n6_len (op_data o)) ++ op_data o) ++ body) <? n6_len pre + 4) with false by (lens; lia).
+    replace (pre ++ (be_bytes 2 (op_code o) ++ be_bytes 2 (n6_len (op_data o)) ++ op_data o) ++ body)
+      with (pre ++ be_bytes 2 (op_code o) ++ (be_bytes 2 (n6_len (op_data o)) ++ op_data o ++ body)) by (rewrite <- !app_assoc; reflexivity).
+    rewrite rd16_mid by (try assumption; reflexivity). cbn [obind].
+    replace (pre ++ be_bytes 2 (op_code o) ++ be_bytes 2 (n6_len (op_data o)) ++ op_data o ++ body)
+      with ((pre ++ be_bytes 2 (op_code o)) ++ be_bytes 2 (n6_len (op_data o)) ++ (op_data o ++ body)) by (rewrite <- !app_assoc; reflexivity).
+    rewrite rd16_mid by (try (lens; lia); lia). cbn [obind].
+    replace (n6_len pre + 4 + n6_len (op_data o) >? n6_len ((pre ++ be_bytes 2 (op_code o)) ++ be_bytes 2 (n6_len (op_data o)) ++ op_data o ++ body)) with false by (lens; lia).
+    replace ((pre ++ be_bytes 2 (op_code o)) ++ be_bytes 2 (n6_len (op_data o)) ++ op_data o ++ body)
+      with (((pre ++ be_bytes 2 (op_code o)) ++ be_bytes 2 (n6_len (op_data o))) ++ op_data o ++ body) by (rewrite <- !app_assoc; reflexivity).
+    rewrite rdsl_mid by (lens; lia). cbn [obind].
+    replace (((pre ++ be_bytes 2 (op_code o)) ++ be_bytes 2 (n6_len (op_data o))) ++ op_data o ++ body)
+      with ((((pre ++ be_bytes 2 (op_code o)) ++ be_bytes 2 (n6_len (op_data o))) ++ op_data o) ++ body) by (rewrite <- !app_assoc; reflexivity).
+    replace (n6_len pre + n6_len (op_data o) + 4) with (n6_len (((pre ++ be_bytes 2 (op_code o)) ++ be_bytes 2 (n6_len (op_data o))) ++ op_data o)) by (lens; lia).
+    rewrite IH by (try assumption; cbn [length] in Hf; lia). rewrite <- app_assoc. destruct o. reflexivity.
+Qed.
+
+Lemma svc_loop_wire : forall ps pre fuel acc,
+  Forall (fun p => 0 <= sp_key p < 65536 /\ n6_len (sp_value p) <= 65535 /\ bytes_ok (sp_value p)) ps -> (length ps < fuel)%nat ->
+  svc_loop (pre ++ params_wire ps) fuel (n6_len pre) acc = Ok (acc ++ ps).
+Proof.
+  induction ps as [|o r IH]; intros pre fuel acc Hok Hf; (destruct fuel as [|f]; [cbn in Hf; lia|]); cbn [svc_loop].
+  - unfold params_wire. cbn [map concat]. rewrite !app_nil_r. replace (n6_len pre <? n6_len pre) with false by lia. reflexivity.
+  - inversion Hok as [|? ? (Hc & Hl & Hb) Hr]; subst. unfold params_wire in *. cbn [map concat].
+    set (body := concat (map (fun o0 => be_bytes 2 (sp_key o0) ++ be_bytes 2 (u16 (n6_len (sp_value o0))) ++ sp_value o0) r)) in *.
+    pose proof (n6_len_nonneg (sp_value o)). pose proof (n6_len_nonneg body). pose proof (n6_len_nonneg pre).
+    assert (Hu : u16 (n6_len (sp_value o)) = n6_len (sp_value o)) by (unfold u16; lia). rewrite Hu.
+    replace (n6_len pre <? n6_len (pre ++ (be_bytes 2 (sp_key o) ++ be_bytes 2 (n6_len (sp_value o)) ++ sp_value o) ++ body)) with true by (lens; lia).
+    replace (n6_len pre + 4 >? n6_len (pre ++ (be_bytes 2 (sp_key o) ++ be_bytes 2 (n6_len (sp_value o)) ++ sp_value o) ++ body)) with false by (lens; lia).
+    replace (pre ++ (be_bytes 2 (sp_key o) ++ be_bytes 2 (n6_len (sp_value o)) ++ sp_value o) ++ body)
+      with (pre ++ be_bytes 2 (sp_key o) ++ (be_bytes 2 (n6_len (sp_value o)) ++ sp_value o ++ body)) by (rewrite <- !app_assoc; reflexivity).
+    rewrite rd16_mid by (try assumption; reflexivity). cbn [obind].
+    replace (pre ++ be_bytes 2 (sp_key o) ++ be_bytes 2 (n6_len (sp_value o)) ++ sp_value o ++ body)
+      with ((pre ++ be_bytes 2 (sp_key o)) ++ be_bytes 2 (n6_len (sp_value o)) ++ (sp_value o ++ body)) by (rewrite <- !app_assoc; reflexivity).
+    rewrite rd16_mid by (try (lens; lia); lia). cbn [obind].
+    replace (n6_len pre + 4 + n6_len (sp_value o) >? n6_len ((pre ++ be_bytes 2 (sp_key o)) ++ be_bytes 2 (n6_len (sp_value o)) ++ sp_value o ++ body)) with false by (lens; lia).
+    replace ((pre ++ be_bytes 2 (sp_key o)) ++ be_bytes 2 (n6_len (sp_value o)) ++ sp_value o ++ body)
+      with (((pre ++ be_bytes 2 (sp_key o)) ++ be_bytes 2 (n6_len (sp_value o))) ++ sp_value o ++ body) by (rewrite <- !app_assoc; reflexivity).
+    rewrite rdsl_mid by (lens; lia). cbn [obind].
+    replace (((pre ++ be_bytes 2 (sp_key o)) ++ be_bytes 2 (n6_len (sp_value o))) ++ sp_value o ++ body)
+      with ((((pre ++ be_bytes 2 (sp_key o)) ++ be_bytes 2 (n6_len (sp_value o))) ++ sp_value o) ++ body) by (rewrite <- !app_assoc; reflexivity).
+    replace (n6_len pre + 4 + n6_len (sp_value o)) with (n6_len (((pre ++ be_bytes 2 (sp_key o)) ++ be_bytes 2 (n6_len (sp_value o))) ++ sp_value o)) by (lens; lia).
+    rewrite IH by (try assumption; cbn [length] in Hf; lia). rewrite <- app_assoc. destruct o. reflexivity.
+Qed.
+
+Lemma rd8_mid pre (x : Z) post i : i = n6_len pre -> rd8 (pre ++ x :: post) i = Ok x.
+Proof. intros. unfold rd8. rewrite idx_mid by assumption. reflexivity. Qed.
+
 (* ---------------------------------------------------------------- records: the fixed part *)
 Definition rr_base (ls0 : list (list Z)) (t c ttl : Z) (rd : list Z) : rr :=
   rr_meta_name (mkRR (join ls0) t c ttl (n6_len rd) rd [] [] [] [] [] soa0 srv0 mx0 naptr0 [] rrsig0 dnskey0 svcb0 uri0 [] None)
@@ -469,6 +529,9 @@ Definition canon_names (n0 : list Z) (l0 : labels) (n1 : list Z) (l1 : labels) (
 Definition u16_ok (x : Z) : Prop := 0 <= x < 65536.
 Definition u32_ok (x : Z) : Prop := 0 <= x < 4294967296.
 
+Definition opt_ok (o : dopt) : Prop := 0 <= op_code o < 65536 /\ n6_len (op_data o) <= 65535 /\ bytes_ok (op_data o).
+Definition param_ok (p : svcparam) : Prop := 0 <= sp_key p < 65536 /\ n6_len (sp_value p) <= 65535 /\ bytes_ok (sp_value p).
+
 (* the type-specific part of a well-formed record: ls1, ls2 = the labels of its RDATA names *)
 Definition wf_rdata (r : rr) (ls1 ls2 : list (list Z)) : Prop :=
   let t := r_type r in
@@ -486,6 +549,26 @@ Definition wf_rdata (r : rr) (ls1 ls2 : list (list Z)) : Prop :=
   else if t =? T_SRV then
     labels_okP ls1 /\ sv_name (r_srv r) = join ls1 /\ u16_ok (sv_prio (r_srv r)) /\ u16_ok (sv_weight (r_srv r)) /\
     u16_ok (sv_port (r_srv r)) /\ ls2 = []
+  else if t =? T_NAPTR then
+    labels_okP ls1 /\ na_repl (r_naptr r) = join ls1 /\ u16_ok (na_order (r_naptr r)) /\ u16_ok (na_pref (r_naptr r)) /\
+    txt_ok (na_flags (r_naptr r)) /\ txt_ok (na_service (r_naptr r)) /\ txt_ok (na_regexp (r_naptr r)) /\ ls2 = []
+  else if t =? T_URI then
+    u16_ok (u_prio (r_uri r)) /\ u16_ok (u_weight (r_uri r)) /\ bytes_ok (u_target (r_uri r)) /\
+    n6_len (u_target (r_uri r)) + 4 <= 65535 /\ ls1 = [] /\ ls2 = []
+  else if t =? T_OPT then
+    Forall opt_ok (r_opt r) /\ n6_len (opts_wire (r_opt r)) <= 65535 /\ ls1 = [] /\ ls2 = []
+  else if t =? T_RRSIG then
+    let g := r_rrsig r in
+    labels_okP ls1 /\ sg_signer g = join ls1 /\ u16_ok (sg_covered g) /\ 0 <= sg_alg g < 256 /\ 0 <= sg_labels g < 256 /\
+    u32_ok (sg_ottl g) /\ u32_ok (sg_exp g) /\ u32_ok (sg_inc g) /\ u16_ok (sg_tag g) /\ bytes_ok (sg_sig g) /\
+    18 + n6_len (labels_wire ls1) + n6_len (sg_sig g) <= 65535 /\ ls2 = []
+  else if t =? T_DNSKEY then
+    let k := r_dnskey r in
+    u16_ok (dk_flags k) /\ 0 <= dk_proto k < 256 /\ 0 <= dk_alg k < 256 /\ bytes_ok (dk_key k) /\
+    n6_len (dk_key k) + 4 <= 65535 /\ ls1 = [] /\ ls2 = []
+  else if (t =? T_SVCB) || (t =? T_HTTPS) then
+    labels_okP ls1 /\ sb_target (r_svcb r) = join ls1 /\ u16_ok (sb_prio (r_svcb r)) /\ Forall param_ok (sb_params (r_svcb r)) /\
+    2 + n6_len (labels_wire ls1) + n6_len (params_wire (sb_params (r_svcb r))) <= 65535 /\ ls2 = []
   else False.
 
 Definition wf_rr (r : rr) : Prop :=
@@ -577,10 +660,42 @@ Proof. intros H. unfold rd_name. rewrite decode_name_wire0 by exact H. reflexivi
 Ltac tyred := cbv beta iota delta [T_A T_AAAA T_TXT T_HINFO T_NS T_CNAME T_PTR T_SOA T_MX T_SRV T_URI T_NAPTR T_OPT T_RRSIG
                                    T_DNSKEY T_SVCB T_HTTPS Z.eqb Pos.eqb orb].
 
+Ltac tyred_c T := repeat match goal with |- context [T =? ?x] => let v := eval vm_compute in (T =? x) in change (T =? x) with v end; cbn [orb].
+
 Ltac same_fields Ety Hnames Hn0 :=
   unfold rr_same, rdata_same; rewrite Ety; tyred;
   repeat split; try (unfold rr_base, rr_meta_name, rr_meta_rdata, rr_meta_rdata2; repeat match goal with |- context [meta_of ?l] => destruct (meta_of l) end; cbn; rewrite ?Hn0; congruence);
   try names_eq Hnames Hn0.
+
+Lemma naptr_str_wire pre t post off : txt_ok t -> off = n6_len pre ->
+  naptr_str (pre ++ u8 (n6_len t) :: t ++ post) off = Ok (t, n6_len pre + 1 + n6_len t).
+Proof.
+  intros [Hl Hb] ->. unfold naptr_str. pose proof (n6_len_nonneg t). pose proof (n6_len_nonneg pre). pose proof (n6_len_nonneg post).
+  replace (n6_len (pre ++ u8 (n6_len t) :: t ++ post) <? n6_len pre + 1) with false by (lens; lia).
+  rewrite rd8_mid by reflexivity. cbn [obind]. rewrite u8_small by lia.
+  replace (n6_len (pre ++ n6_len t :: t ++ post) <? n6_len pre + 1 + n6_len t) with false by (lens; lia).
+  replace (pre ++ n6_len t :: t ++ post) with ((pre ++ [n6_len t]) ++ t ++ post) by (rewrite <- !app_assoc; reflexivity).
+  rewrite rdsl_mid by (lens; lia). reflexivity.
+Qed.
+
+Lemma signer_of_dotted ls : labels_okP ls ->
+  (if 1 <? n6_len (dotted ls) then skipn 1 (dotted ls) else dotted ls) = join ls.
+Proof.
+  intros [Hok _]. rewrite dotted_join. destruct ls as [|l t]; [reflexivity|].
+  inversion Hok as [|? ? [Hl _] _]; subst.
+  assert (1 <= n6_len (join (l :: t))).
+  { cbn [join]. destruct t; [lia|]. pose proof (n6_len_nonneg (join (l0 :: t))). lens. lia. }
+  replace (1 <? n6_len (46 :: join (l :: t))) with true by (lens; lia). reflexivity.
+Qed.
+
+Lemma opts_wire_ge os : Z.of_nat (length os) <= n6_len (opts_wire os).
+Proof. rewrite opts_wire_len. pose proof (sum_len_nonneg (map op_data os)). lia. Qed.
+
+Lemma params_wire_ge ps : Z.of_nat (length ps) <= n6_len (params_wire ps).
+Proof.
+  induction ps as [|p t IH]; [cbn; lia|]. unfold params_wire in *. cbn [map concat length].
+  pose proof (n6_len_nonneg (sp_value p)). lens. lia.
+Qed.
 
 (* a well-formed record: its wire form, and what decoding that wire form (anywhere in a message,
    with any name buffer) gives *)
@@ -739,7 +854,210 @@ Proof.
       + names_eq Hnames Hn0.
       + rewrite <- Wn. destruct (r_srv r). unfold rr_base, rr_meta_name, rr_meta_rdata, rr_meta_rdata2;
           repeat match goal with |- context [meta_of ?l] => destruct (meta_of l) end; reflexivity. }
-  contradiction.
+  destruct (r_type r =? T_NAPTR) eqn:ENAPTR.
+  { destruct Hrd as (W1 & Wn & Wo & Wp & Wf & Wsv & Wre & ->).
+    assert (Ety : r_type r = T_NAPTR) by (apply Z.eqb_eq; assumption).
+    assert (Hl1 : n6_len (labels_wire ls1) <= 255) by apply W1. pose proof (n6_len_nonneg (labels_wire ls1)).
+    set (na := r_naptr r) in *.
+    pose proof (txts_wire_len [na_flags na; na_service na; na_regexp na]) as Htl. cbn [length sum_len fold_right] in Htl.
+    destruct Wf as [Wf1 Wf2]. destruct Wsv as [Ws1 Ws2]. destruct Wre as [Wr1 Wr2].
+    pose proof (n6_len_nonneg (na_flags na)). pose proof (n6_len_nonneg (na_service na)). pose proof (n6_len_nonneg (na_regexp na)).
+    apply (rr_roundtrip_via r pre post buf ls0 (be_bytes 2 (na_order na) ++ be_bytes 2 (na_pref na) ++ txts_wire [na_flags na; na_service na; na_regexp na] ++ labels_wire ls1));
+      try assumption; try (lens; lia).
+    - unfold rdata_wire. rewrite EA, EAAAA, ENS, ECN, EPTR, ESOA, EMX, ETXT, ESRV, ENAPTR. fold na.
+      rewrite (name_wire_wf _ _ _ (Hwf1 _ Wn W1)). reflexivity.
+    - intros P buf1 _. unfold decode_rdata. rewrite rr_base_type, Ety. tyred. pose proof (n6_len_nonneg P).
+      unfold txts_wire. cbn [map concat]. rewrite app_nil_r.
+      set (b1 := be_bytes 2 (na_order na)). set (b2 := be_bytes 2 (na_pref na)).
+      assert (n6_len b1 = 2 /\ n6_len b2 = 2) as (Hb1 & Hb2) by (unfold b1, b2; lens; lia).
+      set (F := u8 (n6_len (na_flags na)) :: na_flags na). set (S1 := u8 (n6_len (na_service na)) :: na_service na).
+      set (R1 := u8 (n6_len (na_regexp na)) :: na_regexp na).
+      assert (n6_len F = 1 + n6_len (na_flags na) /\ n6_len S1 = 1 + n6_len (na_service na) /\ n6_len R1 = 1 + n6_len (na_regexp na)) as (HF & HS & HR)
+        by (unfold F, S1, R1; lens; lia).
+      replace (n6_len (P ++ b1 ++ b2 ++ (F ++ S1 ++ R1) ++ labels_wire ls1) <? n6_len P + 4) with false by (lens; lia).
+      unfold b1 at 1. rewrite rd16_mid by (try apply Wo; reflexivity). cbn [obind]. fold b1.
+      replace (P ++ b1 ++ b2 ++ (F ++ S1 ++ R1) ++ labels_wire ls1) with ((P ++ b1) ++ b2 ++ ((F ++ S1 ++ R1) ++ labels_wire ls1)) by (rewrite <- !app_assoc; reflexivity).
+      unfold b2 at 1. rewrite rd16_mid by (try apply Wp; lens; lia). cbn [obind]. fold b2.
+      replace ((P ++ b1) ++ b2 ++ (F ++ S1 ++ R1) ++ labels_wire ls1)
+        with (((P ++ b1) ++ b2) ++ u8 (n6_len (na_flags na)) :: na_flags na ++ (S1 ++ R1 ++ labels_wire ls1)) by (unfold F; rewrite <- !app_assoc; reflexivity).
+      rewrite naptr_str_wire by (try (split; assumption); lens; lia). cbn [obind].
+      replace (((P ++ b1) ++ b2) ++ u8 (n6_len (na_flags na)) :: na_flags na ++ S1 ++ R1 ++ labels_wire ls1)
+        with ((((P ++ b1) ++ b2) ++ F) ++ u8 (n6_len (na_service na)) :: na_service na ++ (R1 ++ labels_wire ls1)) by (unfold F, S1; rewrite <- !app_assoc; reflexivity).
+      rewrite naptr_str_wire by (try (split; assumption); lens; lia). cbn [obind].
+      replace ((((P ++ b1) ++ b2) ++ F) ++ u8 (n6_len (na_service na)) :: na_service na ++ R1 ++ labels_wire ls1)
+        with (((((P ++ b1) ++ b2) ++ F) ++ S1) ++ u8 (n6_len (na_regexp na)) :: na_regexp na ++ (labels_wire ls1)) by (unfold S1, R1; rewrite <- !app_assoc; reflexivity).
+      rewrite naptr_str_wire by (try (split; assumption); lens; lia). cbn [obind].
+      replace (((((P ++ b1) ++ b2) ++ F) ++ S1) ++ u8 (n6_len (na_regexp na)) :: na_regexp na ++ labels_wire ls1)
+        with ((((((P ++ b1) ++ b2) ++ F) ++ S1) ++ R1) ++ labels_wire ls1) by (unfold R1; rewrite <- !app_assoc; reflexivity).
+      replace (n6_len ((((P ++ b1) ++ b2) ++ F) ++ S1) + 1 + n6_len (na_regexp na)) with (n6_len (((((P ++ b1) ++ b2) ++ F) ++ S1) ++ R1)) by (lens; lia).
+      rewrite rd_name_wire0 by exact W1. cbn [obind].
+      eexists. eexists. split; [reflexivity|].
+      unfold rr_same, rdata_same. rewrite Ety. tyred.
+      repeat split; try (unfold rr_base, rr_meta_name, rr_meta_rdata, rr_meta_rdata2; repeat match goal with |- context [meta_of ?l] => destruct (meta_of l) end; cbn; rewrite ?Hn0; congruence).
+      + names_eq Hnames Hn0.
+      + fold na. rewrite <- Wn. destruct na. unfold rr_base, rr_meta_name, rr_meta_rdata, rr_meta_rdata2;
+          repeat match goal with |- context [meta_of ?l] => destruct (meta_of l) end; reflexivity. }
+  destruct (r_type r =? T_URI) eqn:EURI.
+  { destruct Hrd as (Wp & Ww & Wb & Wl & -> & ->).
+    assert (Ety : r_type r = T_URI) by (apply Z.eqb_eq; assumption).
+    set (u := r_uri r) in *. pose proof (n6_len_nonneg (u_target u)).
+    apply (rr_roundtrip_via r pre post buf ls0 (be_bytes 2 (u_prio u) ++ be_bytes 2 (u_weight u) ++ u_target u)); try assumption; try (lens; lia).
+    - unfold rdata_wire. rewrite EA, EAAAA, ENS, ECN, EPTR, ESOA, EMX, ETXT, ESRV, ENAPTR, EURI. reflexivity.
+    - intros P buf1 _. unfold decode_rdata. rewrite rr_base_type, rr_base_data, Ety. tyred. pose proof (n6_len_nonneg P).
+      replace (n6_len (be_bytes 2 (u_prio u) ++ be_bytes 2 (u_weight u) ++ u_target u) <? 4) with false by (lens; lia).
+      rewrite rd16_mid by (try apply Wp; reflexivity). cbn [obind].
+      replace (P ++ be_bytes 2 (u_prio u) ++ be_bytes 2 (u_weight u) ++ u_target u)
+        with ((P ++ be_bytes 2 (u_prio u)) ++ be_bytes 2 (u_weight u) ++ u_target u) by (rewrite <- !app_assoc; reflexivity).
+      rewrite rd16_mid by (try apply Ww; lens; lia). cbn [obind].
+      replace (be_bytes 2 (u_prio u) ++ be_bytes 2 (u_weight u) ++ u_target u)
+        with ((be_bytes 2 (u_prio u) ++ be_bytes 2 (u_weight u)) ++ u_target u ++ []) by (rewrite <- !app_assoc, app_nil_r; reflexivity).
+      rewrite rdsl_mid by (lens; lia). cbn [obind].
+      eexists. eexists. split; [reflexivity|].
+      unfold rr_same, rdata_same. rewrite Ety. tyred.
+      repeat split; try (unfold rr_base, rr_meta_name; destruct (meta_of ls0); cbn; rewrite ?Hn0; congruence).
+      + names_eq Hnames Hn0.
+      + fold u. destruct u. unfold rr_base, rr_meta_name; destruct (meta_of ls0); reflexivity. }
+  destruct (r_type r =? T_OPT) eqn:EOPT.
+  { destruct Hrd as (Wo & Wl & -> & ->).
+    assert (Ety : r_type r = T_OPT) by (apply Z.eqb_eq; assumption).
+    apply (rr_roundtrip_via r pre post buf ls0 (opts_wire (r_opt r))); try assumption; try lia.
+    - unfold rdata_wire. rewrite EA, EAAAA, ENS, ECN, EPTR, ESOA, EMX, ETXT, ESRV, ENAPTR, EURI, EOPT. reflexivity.
+    - intros P buf1 Hpos. unfold decode_rdata. rewrite rr_base_type, Ety. tyred. pose proof (n6_len_nonneg P).
+      unfold decode_opts.
+      replace (n6_len P =? n6_len (P ++ opts_wire (r_opt r))) with false by (lens; lia).
+      assert (4 <= n6_len (opts_wire (r_opt r))).
+      { destruct (r_opt r) as [|o t]; [cbn in Hpos; lia|]. unfold opts_wire. cbn [map concat].
+        pose proof (n6_len_nonneg (op_data o)).
+        pose proof (n6_len_nonneg (concat (map (fun o0 => be_bytes 2 (op_code o0) ++ be_bytes 2 (u16 (n6_len (op_data o0))) ++ op_data o0) t))). lens. lia. }
+      replace (n6_len P + 4 >? n6_len (P ++ opts_wire (r_opt r))) with false by (lens; lia).
+      rewrite opts_loop_wire by (try exact Wo; pose proof (opts_wire_ge (r_opt r)); rewrite app_length; unfold n6_len in *; lia).
+      cbn [obind app]. eexists. eexists. split; [reflexivity|]. same_fields Ety Hnames Hn0.
+    - intros Hz. unfold rr_same, rdata_same. rewrite Ety. tyred.
+      assert (r_opt r = []) as Et.
+      { destruct (r_opt r) as [|o t]; [reflexivity|]. unfold opts_wire in Hz. cbn [map concat] in Hz.
+        pose proof (n6_len_nonneg (op_data o)).
+        pose proof (n6_len_nonneg (concat (map (fun o0 => be_bytes 2 (op_code o0) ++ be_bytes 2 (u16 (n6_len (op_data o0))) ++ op_data o0) t))). lens. lia. }
+      repeat split; try (unfold rr_base, rr_meta_name; destruct (meta_of ls0); cbn; rewrite ?Hn0, ?Et; congruence).
+      names_eq Hnames Hn0. }
+  destruct (r_type r =? T_RRSIG) eqn:ERRSIG.
+  { cbv zeta in Hrd. destruct Hrd as (W1 & Wn & Wc & Wa & Wlb & Wo & We & Wi & Wt & Wsb & Wl & ->).
+    assert (Ety : r_type r = T_RRSIG) by (apply Z.eqb_eq; assumption).
+    assert (Hl1 : n6_len (labels_wire ls1) <= 255) by apply W1. pose proof (n6_len_nonneg (labels_wire ls1)).
+    set (g := r_rrsig r) in *. pose proof (n6_len_nonneg (sg_sig g)).
+    set (fixed := be_bytes 2 (sg_covered g) ++ [u8 (sg_alg g)] ++ [u8 (sg_labels g)] ++ be_bytes 4 (sg_ottl g) ++ be_bytes 4 (sg_exp g)
+                  ++ be_bytes 4 (sg_inc g) ++ be_bytes 2 (sg_tag g)).
+    assert (Hfl : n6_len fixed = 18) by (unfold fixed; lens; lia).
+    apply (rr_roundtrip_via r pre post buf ls0 (fixed ++ labels_wire ls1 ++ sg_sig g)); try assumption; try (lens; lia).
+    - unfold rdata_wire. rewrite EA, EAAAA, ENS, ECN, EPTR, ESOA, EMX, ETXT, ESRV, ENAPTR, EURI, EOPT, ERRSIG. cbv zeta. fold g.
+      rewrite (name_wire_wf _ _ _ (Hwf1 _ Wn W1)). cbn [obind]. unfold fixed. rewrite <- !app_assoc. reflexivity.
+    - intros P buf1 _. unfold decode_rdata. rewrite rr_base_type, Ety. tyred. pose proof (n6_len_nonneg P).
+      replace (n6_len (P ++ fixed ++ labels_wire ls1 ++ sg_sig g) <? n6_len P + 18) with false by (lens; lia).
+      set (tl := labels_wire ls1 ++ sg_sig g).
+      replace (P ++ fixed ++ tl) with (P ++ be_bytes 2 (sg_covered g) ++ ([u8 (sg_alg g)] ++ [u8 (sg_labels g)] ++ be_bytes 4 (sg_ottl g) ++ be_bytes 4 (sg_exp g)
+                  ++ be_bytes 4 (sg_inc g) ++ be_bytes 2 (sg_tag g) ++ tl)) by (unfold fixed; rewrite <- !app_assoc; reflexivity).
+      rewrite rd16_mid by (try apply Wc; reflexivity). cbn [obind].
+      set (Q1 := P ++ be_bytes 2 (sg_covered g)).
+      replace (P ++ be_bytes 2 (sg_covered g) ++ [u8 (sg_alg g)] ++ [u8 (sg_labels g)] ++ be_bytes 4 (sg_ottl g) ++ be_bytes 4 (sg_exp g) ++ be_bytes 4 (sg_inc g) ++ be_bytes 2 (sg_tag g) ++ tl)
+        with (Q1 ++ u8 (sg_alg g) :: ([u8 (sg_labels g)] ++ be_bytes 4 (sg_ottl g) ++ be_bytes 4 (sg_exp g) ++ be_bytes 4 (sg_inc g) ++ be_bytes 2 (sg_tag g) ++ tl))
+        by (unfold Q1; rewrite <- !app_assoc; reflexivity).
+      rewrite rd8_mid by (unfold Q1; lens; lia). cbn [obind].
+      set (Q2 := Q1 ++ [u8 (sg_alg g)]).
+      replace (Q1 ++ u8 (sg_alg g) :: [u8 (sg_labels g)] ++ be_bytes 4 (sg_ottl g) ++ be_bytes 4 (sg_exp g) ++ be_bytes 4 (sg_inc g) ++ be_bytes 2 (sg_tag g) ++ tl)
+        with (Q2 ++ u8 (sg_labels g) :: (be_bytes 4 (sg_ottl g) ++ be_bytes 4 (sg_exp g) ++ be_bytes 4 (sg_inc g) ++ be_bytes 2 (sg_tag g) ++ tl))
+        by (unfold Q2; rewrite <- !app_assoc; reflexivity).
+      rewrite rd8_mid by (unfold Q2, Q1; lens; lia). cbn [obind].
+      set (Q3 := Q2 ++ [u8 (sg_labels g)]).
+      replace (Q2 ++ u8 (sg_labels g) :: be_bytes 4 (sg_ottl g) ++ be_bytes 4 (sg_exp g) ++ be_bytes 4 (sg_inc g) ++ be_bytes 2 (sg_tag g) ++ tl)
+        with (Q3 ++ be_bytes 4 (sg_ottl g) ++ (be_bytes 4 (sg_exp g) ++ be_bytes 4 (sg_inc g) ++ be_bytes 2 (sg_tag g) ++ tl))
+        by (unfold Q3; rewrite <- !app_assoc; reflexivity).
+      rewrite rd32_mid by (try apply Wo; unfold Q3, Q2, Q1; lens; lia). cbn [obind].
+      replace (Q3 ++ be_bytes 4 (sg_ottl g) ++ be_bytes 4 (sg_exp g) ++ be_bytes 4 (sg_inc g) ++ be_bytes 2 (sg_tag g) ++ tl)
+        with ((Q3 ++ be_bytes 4 (sg_ottl g)) ++ be_bytes 4 (sg_exp g) ++ (be_bytes 4 (sg_inc g) ++ be_bytes 2 (sg_tag g) ++ tl))
+        by (rewrite <- !app_assoc; reflexivity).
+      rewrite rd32_mid by (try apply We; unfold Q3, Q2, Q1; lens; lia). cbn [obind].
+      replace ((Q3 ++ be_bytes 4 (sg_ottl g)) ++ be_bytes 4 (sg_exp g) ++ be_bytes 4 (sg_inc g) ++ be_bytes 2 (sg_tag g) ++ tl)
+        with (((Q3 ++ be_bytes 4 (sg_ottl g)) ++ be_bytes 4 (sg_exp g)) ++ be_bytes 4 (sg_inc g) ++ (be_bytes 2 (sg_tag g) ++ tl))
+        by (rewrite <- !app_assoc; reflexivity).
+      rewrite rd32_mid by (try apply Wi; unfold Q3, Q2, Q1; lens; lia). cbn [obind].
+      replace (((Q3 ++ be_bytes 4 (sg_ottl g)) ++ be_bytes 4 (sg_exp g)) ++ be_bytes 4 (sg_inc g) ++ be_bytes 2 (sg_tag g) ++ tl)
+        with ((((Q3 ++ be_bytes 4 (sg_ottl g)) ++ be_bytes 4 (sg_exp g)) ++ be_bytes 4 (sg_inc g)) ++ be_bytes 2 (sg_tag g) ++ tl)
+        by (rewrite <- !app_assoc; reflexivity).
+      rewrite rd16_mid by (try apply Wt; unfold Q3, Q2, Q1; lens; lia). cbn [obind].
+      set (Q := ((((Q3 ++ be_bytes 4 (sg_ottl g)) ++ be_bytes 4 (sg_exp g)) ++ be_bytes 4 (sg_inc g)) ++ be_bytes 2 (sg_tag g))).
+      assert (HQ : n6_len Q = n6_len P + 18) by (unfold Q, Q3, Q2, Q1; lens; lia).
+      replace ((((Q3 ++ be_bytes 4 (sg_ottl g)) ++ be_bytes 4 (sg_exp g)) ++ be_bytes 4 (sg_inc g)) ++ be_bytes 2 (sg_tag g) ++ tl)
+        with (Q ++ labels_wire ls1 ++ sg_sig g) by (unfold Q, tl; rewrite <- !app_assoc; reflexivity).
+      replace (n6_len P + 18) with (n6_len Q) by lia.
+      rewrite decode_name_wire by exact W1. cbn [app].
+      rewrite signer_of_dotted by exact W1.
+      replace (Q ++ labels_wire ls1 ++ sg_sig g) with ((Q ++ labels_wire ls1) ++ sg_sig g ++ []) by (rewrite <- !app_assoc, app_nil_r; reflexivity).
+      rewrite rdsl_mid by (lens; lia). cbn [obind].
+      eexists. eexists. split; [reflexivity|].
+      rewrite !u8_small by lia.
+      unfold rr_same, rdata_same. rewrite Ety. tyred.
+      repeat split; try (unfold rr_base, rr_meta_name, rr_meta_rdata, rr_meta_rdata2; repeat match goal with |- context [meta_of ?l] => destruct (meta_of l) end; cbn; rewrite ?Hn0; congruence).
+      + names_eq Hnames Hn0.
+      + fold g. rewrite <- Wn. destruct g. unfold rr_base, rr_meta_name, rr_meta_rdata, rr_meta_rdata2;
+          repeat match goal with |- context [meta_of ?l] => destruct (meta_of l) end; reflexivity. }
+  destruct (r_type r =? T_DNSKEY) eqn:EDNSKEY.
+  { cbv zeta in Hrd. destruct Hrd as (Wf & Wp & Wa & Wb & Wl & -> & ->).
+    assert (Ety : r_type r = T_DNSKEY) by (apply Z.eqb_eq; assumption).
+    set (k := r_dnskey r) in *. pose proof (n6_len_nonneg (dk_key k)).
+    apply (rr_roundtrip_via r pre post buf ls0 (be_bytes 2 (dk_flags k) ++ [u8 (dk_proto k)] ++ [u8 (dk_alg k)] ++ dk_key k)); try assumption; try (lens; lia).
+    - unfold rdata_wire. rewrite EA, EAAAA, ENS, ECN, EPTR, ESOA, EMX, ETXT, ESRV, ENAPTR, EURI, EOPT, ERRSIG, EDNSKEY. reflexivity.
+    - intros P buf1 _. unfold decode_rdata. rewrite rr_base_type, Ety. tyred. pose proof (n6_len_nonneg P).
+      replace (n6_len (P ++ be_bytes 2 (dk_flags k) ++ [u8 (dk_proto k)] ++ [u8 (dk_alg k)] ++ dk_key k) <? n6_len P + 4) with false by (lens; lia).
+      rewrite rd16_mid by (try apply Wf; reflexivity). cbn [obind].
+      replace (P ++ be_bytes 2 (dk_flags k) ++ [u8 (dk_proto k)] ++ [u8 (dk_alg k)] ++ dk_key k)
+        with ((P ++ be_bytes 2 (dk_flags k)) ++ u8 (dk_proto k) :: ([u8 (dk_alg k)] ++ dk_key k)) by (rewrite <- !app_assoc; reflexivity).
+      rewrite rd8_mid by (lens; lia). cbn [obind].
+      replace ((P ++ be_bytes 2 (dk_flags k)) ++ u8 (dk_proto k) :: [u8 (dk_alg k)] ++ dk_key k)
+        with (((P ++ be_bytes 2 (dk_flags k)) ++ [u8 (dk_proto k)]) ++ u8 (dk_alg k) :: dk_key k) by (rewrite <- !app_assoc; reflexivity).
+      rewrite rd8_mid by (lens; lia). cbn [obind].
+      replace (((P ++ be_bytes 2 (dk_flags k)) ++ [u8 (dk_proto k)]) ++ u8 (dk_alg k) :: dk_key k)
+        with ((((P ++ be_bytes 2 (dk_flags k)) ++ [u8 (dk_proto k)]) ++ [u8 (dk_alg k)]) ++ dk_key k ++ []) by (rewrite <- !app_assoc, app_nil_r; reflexivity).
+      rewrite rdsl_mid by (lens; lia). cbn [obind].
+      eexists. eexists. split; [reflexivity|]. rewrite !u8_small by lia.
+      unfold rr_same, rdata_same. rewrite Ety. tyred.
+      repeat split; try (unfold rr_base, rr_meta_name; destruct (meta_of ls0); cbn; rewrite ?Hn0; congruence).
+      + names_eq Hnames Hn0.
+      + fold k. destruct k. unfold rr_base, rr_meta_name; destruct (meta_of ls0); reflexivity. }
+  destruct ((r_type r =? T_SVCB) || (r_type r =? T_HTTPS)) eqn:ESVCB; [|contradiction].
+  destruct Hrd as (W1 & Wn & Wp & Wps & Wl & ->).
+  assert (Hl1 : n6_len (labels_wire ls1) <= 255) by apply W1. pose proof (n6_len_nonneg (labels_wire ls1)).
+  set (v := r_svcb r) in *. pose proof (n6_len_nonneg (params_wire (sb_params v))).
+  apply (rr_roundtrip_via r pre post buf ls0 (be_bytes 2 (sb_prio v) ++ labels_wire ls1 ++ params_wire (sb_params v))); try assumption; try (lens; lia).
+  - unfold rdata_wire. rewrite EA, EAAAA, ENS, ECN, EPTR, ESOA, EMX, ETXT, ESRV, ENAPTR, EURI, EOPT, ERRSIG, EDNSKEY, ESVCB. fold v.
+    rewrite (name_wire_wf _ _ _ (Hwf1 _ Wn W1)). reflexivity.
+  - intros P buf1 _. pose proof (n6_len_nonneg P).
+    assert (Hdec : decode_rdata (rr_base ls0 (r_type r) (r_class r) (r_ttl r) (be_bytes 2 (sb_prio v) ++ labels_wire ls1 ++ params_wire (sb_params v)))
+                     (P ++ be_bytes 2 (sb_prio v) ++ labels_wire ls1 ++ params_wire (sb_params v)) (n6_len P) buf1
+                   = Ok (rr_meta_rdata (rr_set_svcb (rr_base ls0 (r_type r) (r_class r) (r_ttl r) (be_bytes 2 (sb_prio v) ++ labels_wire ls1 ++ params_wire (sb_params v)))
+                                                     (mkSvcb (sb_prio v) (join ls1) (sb_params v))) (join ls1) (meta_of ls1), buf1 ++ dotted ls1)).
+    { unfold decode_rdata. rewrite rr_base_type.
+      apply orb_true_iff in ESVCB. destruct ESVCB as [E|E]; apply Z.eqb_eq in E; rewrite E; [tyred_c T_SVCB|tyred_c T_HTTPS];
+      (replace (n6_len P =? n6_len (P ++ be_bytes 2 (sb_prio v) ++ labels_wire ls1 ++ params_wire (sb_params v))) with false by (lens; lia);
+       replace (n6_len P + 3 >? n6_len (P ++ be_bytes 2 (sb_prio v) ++ labels_wire ls1 ++ params_wire (sb_params v))) with false by (unfold labels_wire; lens; pose proof (n6_len_nonneg (labels_body ls1)); lia);
+       rewrite rd16_mid by (try apply Wp; reflexivity); cbn [obind];
+       replace (P ++ be_bytes 2 (sb_prio v) ++ labels_wire ls1 ++ params_wire (sb_params v))
+         with ((P ++ be_bytes 2 (sb_prio v)) ++ labels_wire ls1 ++ params_wire (sb_params v)) by (rewrite <- !app_assoc; reflexivity);
+       replace (n6_len P + 2) with (n6_len (P ++ be_bytes 2 (sb_prio v))) by (lens; lia);
+       rewrite rd_name_wire by exact W1; cbn [obind];
+       replace ((P ++ be_bytes 2 (sb_prio v)) ++ labels_wire ls1 ++ params_wire (sb_params v))
+         with (((P ++ be_bytes 2 (sb_prio v)) ++ labels_wire ls1) ++ params_wire (sb_params v)) by (rewrite <- !app_assoc; reflexivity);
+       replace (n6_len (P ++ be_bytes 2 (sb_prio v)) + n6_len (labels_wire ls1)) with (n6_len ((P ++ be_bytes 2 (sb_prio v)) ++ labels_wire ls1)) by (lens; lia);
+       rewrite svc_loop_wire by (try exact Wps; pose proof (params_wire_ge (sb_params v)); rewrite !app_length; unfold n6_len in *; lia);
+       cbn [obind app]; reflexivity). }
+    rewrite Hdec. eexists. eexists. split; [reflexivity|].
+    unfold rr_same, rdata_same.
+    assert (Hnot : forall T, T <> T_SVCB -> T <> T_HTTPS -> (r_type r =? T) = false).
+    { intros T Hx1 Hx2. apply orb_true_iff in ESVCB. destruct ESVCB as [E|E]; apply Z.eqb_eq in E; rewrite E; apply Z.eqb_neq; congruence. }
+    rewrite !Hnot by (unfold T_A, T_AAAA, T_NS, T_CNAME, T_PTR, T_SOA, T_MX, T_TXT, T_SRV, T_NAPTR, T_URI, T_OPT, T_RRSIG, T_DNSKEY, T_SVCB, T_HTTPS; lia).
+    cbn [orb]. rewrite ESVCB.
+    repeat split; try (unfold rr_base, rr_meta_name, rr_meta_rdata, rr_meta_rdata2; repeat match goal with |- context [meta_of ?l] => destruct (meta_of l) end; cbn; rewrite ?Hn0; congruence).
+    + names_eq Hnames Hn0.
+    + fold v. rewrite <- Wn. destruct v. unfold rr_base, rr_meta_name, rr_meta_rdata, rr_meta_rdata2;
+        repeat match goal with |- context [meta_of ?l] => destruct (meta_of l) end; reflexivity.
 Qed.
 
 (* ---------------------------------------------------------------- the lists *)
@@ -772,33 +1090,38 @@ Proof.
   destruct (rr_roundtrip r [] [] [] Hr) as (w1 & r2 & b2 & Hw1 & _). rewrite Hw1, IH. cbn [obind]. eauto.
 Qed.
 
-Lemma wf_rr_not_opt r : wf_rr r -> (r_type r =? T_OPT) = false.
-Proof.
-  intros (ls0 & ls1 & ls2 & _ & _ & _ & _ & _ & _ & Hrd). unfold wf_rdata in Hrd.
-  repeat match type of Hrd with (if ?c then _ else _) => destruct c eqn:?E end; try contradiction;
-    match goal with H : (r_type r =? _) = true |- _ => apply Z.eqb_eq in H; rewrite H; reflexivity end.
-Qed.
+(* the extended RCODE (406-408): OPT records among the Additionals OR their TTL bits 24..27 into the
+   response code as the loop goes by *)
+Definition ext_step (rc : Z) (r : rr) : Z :=
+  if r_type r =? T_OPT then Z.lor (u8 rc) (u8 (Z.land (Z.shiftr (r_ttl r) 20) 240)) else rc.
+Definition ext_rcode (ext : bool) (rc : Z) (rs : list rr) : Z := if ext then fold_left ext_step rs rc else rc.
 
 Lemma rr_loop_wire ext : forall rs pre post buf acc rc w, Forall wf_rr rs -> rrs_wire rs = Ok w ->
   exists rs2 buf2,
-    rr_loop (pre ++ w ++ post) ext (length rs) (n6_len pre) buf acc rc = (acc ++ rs2, rc, Ok (n6_len pre + n6_len w, buf2))
+    rr_loop (pre ++ w ++ post) ext (length rs) (n6_len pre) buf acc rc
+      = (acc ++ rs2, ext_rcode ext rc rs, Ok (n6_len pre + n6_len w, buf2))
     /\ Forall2 rr_same rs rs2.
 Proof.
   induction rs as [|r t IH]; intros pre post buf acc rc w Hwf Hw; cbn [rrs_wire rr_loop length] in *.
-  - apply Ok_inj in Hw. subst w. exists [], buf. rewrite !app_nil_r. split; [|constructor]. cbn [app]. f_equal. apply pair_eq; [lens; lia|reflexivity].
+  - apply Ok_inj in Hw. subst w. exists [], buf. rewrite !app_nil_r. split; [|constructor]. cbn [app].
+    replace (ext_rcode ext rc []) with rc by (destruct ext; reflexivity). f_equal. apply pair_eq; [lens; lia|reflexivity].
   - inversion Hwf as [|? ? Hr Ht]; subst.
     destruct (rr_roundtrip r pre [] buf Hr) as (w1 & r2' & b2' & Hw1 & _). rewrite Hw1 in Hw. cbn [obind] in Hw.
     destruct (rrs_wire t) as [wt|e|s] eqn:Et; cbn [obind] in Hw; try discriminate. apply Ok_inj in Hw. subst w.
     destruct (rr_roundtrip r pre (wt ++ post) buf Hr) as (w1' & r2 & b2 & Hw1' & Hd & Hs). rewrite Hw1 in Hw1'. apply Ok_inj in Hw1'. subst w1'.
     replace (pre ++ (w1 ++ wt) ++ post) with (pre ++ w1 ++ wt ++ post) by (rewrite <- !app_assoc; reflexivity).
     rewrite Hd.
-    assert (Hno : (r_type r2 =? T_OPT) = false) by (destruct Hs as (_ & -> & _); apply wf_rr_not_opt, Hr).
-    rewrite Hno, andb_false_r.
-    destruct (IH (pre ++ w1) post b2 (acc ++ [r2]) rc wt Ht eq_refl) as (rs2 & buf2 & Hl & Hf).
+    assert (Hstep : (if ext && (r_type r2 =? T_OPT) then Z.lor (u8 rc) (u8 (Z.land (Z.shiftr (r_ttl r2) 20) 240)) else rc)
+                    = if ext then ext_step rc r else rc).
+    { destruct Hs as (_ & Ety & _ & Ettl & _). unfold ext_step. rewrite Ety, Ettl. destruct ext; reflexivity. }
+    rewrite Hstep.
+    destruct (IH (pre ++ w1) post b2 (acc ++ [r2]) (if ext then ext_step rc r else rc) wt Ht eq_refl) as (rs2 & buf2 & Hl & Hf).
     replace (pre ++ w1 ++ wt ++ post) with ((pre ++ w1) ++ wt ++ post) by (rewrite <- !app_assoc; reflexivity).
     replace (n6_len pre + n6_len w1) with (n6_len (pre ++ w1)) by (lens; lia).
     rewrite Hl. exists (r2 :: rs2), buf2. split; [|constructor; assumption].
-    rewrite <- app_assoc. cbn [app]. f_equal. apply pair_eq; [lens; lia|reflexivity].
+    rewrite <- app_assoc. cbn [app].
+    replace (ext_rcode ext (if ext then ext_step rc r else rc) t) with (ext_rcode ext rc (r :: t)) by (destruct ext; reflexivity).
+    f_equal. apply pair_eq; [lens; lia|reflexivity].
 Qed.
 
 (* ---------------------------------------------------------------- the header bits *)
@@ -878,7 +1201,8 @@ Proof. induction 1; cbn; congruence. Qed.
 
 (* ---------------------------------------------------------------- the message *)
 Definition dns_wf (d : dns) : Prop :=
-  u16_ok (d_id d) /\ 0 <= d_opcode d < 16 /\ 0 <= d_z d < 8 /\ 0 <= d_rcode d < 16 /\
+  u16_ok (d_id d) /\ 0 <= d_opcode d < 16 /\ 0 <= d_z d < 8 /\
+  d_rcode d = fold_left ext_step (d_additionals d) (Z.land (d_rcode d) 15) /\
   Forall wf_q (d_questions d) /\ Forall wf_rr (d_answers d) /\ Forall wf_rr (d_authorities d) /\ Forall wf_rr (d_additionals d) /\
   zlen (d_questions d) < 65536 /\ zlen (d_answers d) < 65536 /\ zlen (d_authorities d) < 65536 /\ zlen (d_additionals d) < 65536.
 
@@ -915,7 +1239,11 @@ Proof.
   set (W := hdr_wire d true ++ qw ++ aw ++ nw ++ rw).
   exists W. rewrite firstn_app_exact by (rewrite app_length; lia).
   destruct (hdr_bits2 (d_qr d) (d_aa d) (d_tc d) (d_rd d) (d_opcode d) Hop) as (B1 & B2 & B3 & B4 & B5 & B6).
-  destruct (hdr_bits3 (d_ra d) (d_z d) (d_rcode d) Hz Hrc) as (C1 & C2 & C3 & C4).
+  assert (Hrc16 : 0 <= Z.land (d_rcode d) 15 < 16).
+  { change 15 with (Z.ones 4). rewrite Z.land_ones by lia. change (2 ^ 4) with 16. lia. }
+  destruct (hdr_bits3 (d_ra d) (d_z d) (Z.land (d_rcode d) 15) Hz Hrc16) as (C1 & C2 & C3 & C4).
+  replace (Z.land (Z.land (d_rcode d) 15) 15) with (Z.land (d_rcode d) 15) in C1, C2, C3, C4
+    by (change 15 with (Z.ones 4); rewrite !Z.land_ones by lia; change (2 ^ 4) with 16; lia).
   fold (hdr_b2 d) in B1, B2, B3, B4, B5, B6. fold (hdr_b3 d) in C1, C2, C3, C4.
   set (body := qw ++ aw ++ nw ++ rw) in *.
   assert (HW : W = be_bytes 2 (d_id d) ++ [hdr_b2 d] ++ [hdr_b3 d] ++ be_bytes 2 cq ++ be_bytes 2 ca ++ be_bytes 2 cn ++ be_bytes 2 cr ++ body)
@@ -974,6 +1302,7 @@ Proof.
   replace (negb (u16 (Z.of_nat (length ads2)) =? cr)) with false by (unfold u16, cr; lia).
   eexists. split; [reflexivity|]. cbn [d_id d_qr d_opcode d_aa d_tc d_rd d_ra d_z d_rcode d_qdcount d_ancount d_nscount d_arcount
                                        d_questions d_answers d_authorities d_additionals d_contents d_payload].
+  rewrite C3. cbn [ext_rcode]. rewrite <- Hrc.
   repeat split; try assumption; try reflexivity.
 Qed.
 
